@@ -150,6 +150,9 @@ def operandWidths (op : Nat) : List Nat :=
     with a larger opcode byte is a Go index-out-of-range panic -/
 def numOpcodes : Nat := 44
 
+/-- number of operand bytes of an instruction -/
+def opWidth (op : Nat) : Nat := (operandWidths op).sum
+
 def maxOf (w : Nat) : Int :=
   if w == 1 then 255 else if w == 2 then 65535 else 2147483647
 
@@ -484,6 +487,12 @@ def popLoop : CM Loop := do
   set { s with loops := s.loops.drop 1 }
   pure (s.loops.head?.getD { lastTryCatchIndex := -1 })
 
+/-- `enterLoop()` … `leaveLoop()` around the loop body; returns the loop object -/
+def withLoop (body : CM Unit) : CM Loop := do
+  pushLoop
+  body
+  popLoop
+
 /-- `for _, pos := range ps { c.changeOperand(pos, target) }` -/
 def patchAll (target : Nat) : List Nat → CM Unit
   | [] => pure ()
@@ -505,7 +514,7 @@ def scanFn (insts : Array UInt8) : Nat → Nat → Nat → List Nat → Option (
       let op := opb.toNat
       if op ≥ numOpcodes then none
       else
-        let width := (operandWidths op).foldl (· + ·) 0
+        let width := opWidth op
         if i + 1 + width > insts.size then none
         else
           let pend := if op == OpJump || op == OpJumpFalsy || op == OpAndJump || op == OpOrJump
@@ -513,19 +522,21 @@ def scanFn (insts : Array UInt8) : Nat → Nat → Nat → List Nat → Option (
           let pend := pend.filter (· != i)
           scanFn insts fuel (i + width + 1) op pend
 
-/-- `Bytecode()` epilogue: append RETURN 0 unless the stream already ends in RETURN and no
-    jump targets the position after it. -/
+/-- `Bytecode()` after the scan: append RETURN 0 unless the stream already ends in RETURN and no
+    jump targets the position after it; then collect the function. -/
+def finishTail (lastOp : Nat) (pend : List Nat) : CM CFn := do
+  (if lastOp != OpReturn || !pend.isEmpty then emit_ 0 OpReturn [0] else pure ())
+  let s ← get
+  let t ← headTable
+  pure { numParams := t.numParams, numLocals := t.maxDefinition, variadic := s.variadic,
+         insts := s.insts, sourceMap := s.sourceMap }
+
+/-- `Bytecode()` -/
 def finishFn : CM CFn := do
   let s ← get
   match scanFn s.insts (s.insts.size + 1) 0 0 [] with
   | none => cpanic "runtime error: index out of range"
-  | some (lastOp, pend) =>
-    if lastOp != OpReturn || !pend.isEmpty then
-      emit_ 0 OpReturn [0]
-    let s ← get
-    let t ← headTable
-    pure { numParams := t.numParams, numLocals := t.maxDefinition, variadic := s.variadic,
-           insts := s.insts, sourceMap := s.sourceMap }
+  | some (lastOp, pend) => finishTail lastOp pend
 
 /-- `c.symbolTable = c.symbolTable.Fork(true)` … `c.symbolTable = c.symbolTable.Parent(false)` -/
 def withBlock (body : CM Unit) : CM Unit := do
@@ -615,17 +626,18 @@ def compileValueIdent (pos : Pos) (tok : Nat) (name : String) (act : CM Unit) (s
 def compileIdentsNoValue (pos : Pos) (tok : Nat) (last : Option (CM Unit × VSum)) : List (Pos × String) → CM Unit
   | [] => pure ()
   | (ipos, name) :: rest => do
-    match (if tok == tConst then last else none) with
-    | some (act, sum) => compileValueIdent pos tok name act sum
-    | none => compileValueIdent pos tok name (emit_ ipos OpNull) (.lit .undefined)
+    (match (if tok == tConst then last else none) with
+     | some (act, sum) => compileValueIdent pos tok name act sum
+     | none => compileValueIdent pos tok name (emit_ ipos OpNull) (.lit .undefined))
     compileIdentsNoValue pos tok last rest
 
 def declParamVariadic (pos : Pos) : List (Pos × String × Bool) → CM Unit
   | [] => pure ()
   | (_, _, va) :: rest => do
-    if va then
+    (if va then do
       if (← get).variadic then cerr pos "multiple variadic param declaration"
       else modify fun s => { s with variadic := true }
+     else pure ())
     declParamVariadic pos rest
 
 def declGlobals (pos : Pos) : List (Pos × String × Bool) → CM Unit
@@ -649,10 +661,10 @@ def declGlobals (pos : Pos) : List (Pos × String × Bool) → CM Unit
 def emitFreePtrs (pos : Pos) : List Symbol → CM Unit
   | [] => pure ()
   | s :: r => do
-    match s.scope with
-    | .local_ => emit_ pos OpGetLocalPtr [s.index]
-    | .free => emit_ pos OpGetFreePtr [s.index]
-    | _ => pure ()
+    (match s.scope with
+     | .local_ => emit_ pos OpGetLocalPtr [s.index]
+     | .free => emit_ pos OpGetFreePtr [s.index]
+     | _ => pure ())
     emitFreePtrs pos r
 
 def compileIdent (pos : Pos) (name : String) : CM Unit := do
@@ -688,8 +700,8 @@ def compileBranch (pos : Pos) (tok : Nat) : CM Unit := do
     | none => cerr pos (if tok == tBreak then "break not allowed outside of loop" else "continue not allowed outside of loop")
     | some loop => do
       let s ← get
-      if loop.lastTryCatchIndex != s.tryCatchIndex then
-        emit_ pos OpFinalizer [loop.lastTryCatchIndex + 1]
+      (if loop.lastTryCatchIndex != s.tryCatchIndex then emit_ pos OpFinalizer [loop.lastTryCatchIndex + 1]
+       else pure ())
       let p ← emit pos OpJump [0]
       if tok == tBreak then modLoop fun l => { l with breaks := l.breaks ++ [p] }
       else modLoop fun l => { l with continues := l.continues ++ [p] }
@@ -733,9 +745,9 @@ def compileAssign (pos : Pos) (lhs : List Expr) (nrhs : Nat) (rhsAct lhs0Act def
   else if op != tAssign && op != tDefine then do
     lhs0Act
     rhsAct
-    match compoundOp op with
-    | some t => emit_ pos OpBinaryOp [t]
-    | none => pure ()
+    (match compoundOp op with
+     | some t => emit_ pos OpBinaryOp [t]
+     | none => pure ())
     defAssign0
   else if lhs.length > 1 then do
     let (sym, _) ← defineLocal ":array"
@@ -753,6 +765,17 @@ def compileAssign (pos : Pos) (lhs : List Expr) (nrhs : Nat) (rhsAct lhs0Act def
   else do
     rhsAct
     defAssign0
+
+/-- `compileFuncLit` around the body: `Fork(false)`, `SetParams`, the forked compiler, `Bytecode()`;
+    returns the compiled function and the function's symbol table -/
+def withFn (pos : Pos) (variadic : Bool) (params : List String) (body : CM Unit) : CM (CFn × Table) := do
+  forkTable false
+  setParams pos params
+  let outer ← enterFn variadic
+  body
+  let fn ← finishFn
+  let ft ← leaveFn outer
+  pure (fn, ft)
 
 mutual
 def compileExpr : Expr → CM Unit
@@ -799,17 +822,11 @@ def compileExpr : Expr → CM Unit
     emit_ pos OpGetIndex [(n + 1 : Nat)]
   | .slice pos e lo hi => do
     compileExpr e
-    match lo with | some x => compileExpr x | none => emit_ pos OpNull
-    match hi with | some x => compileExpr x | none => emit_ pos OpNull
+    (match lo with | some x => compileExpr x | none => emit_ pos OpNull)
+    (match hi with | some x => compileExpr x | none => emit_ pos OpNull)
     emit_ pos OpSliceIndex
   | .func pos variadic params _ body => do
-    -- symbolTable.Fork(false); SetParams; fork compiler
-    forkTable false
-    setParams pos params
-    let outer ← enterFn variadic
-    blockOf body (compileStmts body)
-    let fn ← finishFn
-    let ft ← leaveFn outer
+    let (fn, ft) ← withFn pos variadic params (blockOf body (compileStmts body))
     emitFreePtrs pos ft.frees
     if fn.numLocals > 256 then throw (.err pos "SymbolLimitError: number of local symbols exceeds the limit")
     else do
@@ -881,14 +898,15 @@ def compileDefineAssign (pos : Pos) (lhs : Expr) (keyword op : Nat) (allowRedefi
     match (← resolve (lhsName e)) with
     | none => cerr pos s!"unresolved reference \"{lhsName e}\""
     | some sym => do
-      match sym.scope with
-      | .local_ => emit_ pos OpGetLocal [sym.index]
-      | .free => emit_ pos OpGetFree [sym.index]
-      | .global => emit_ pos OpGetGlobal [sym.index]
-      | _ => cerr pos s!"unexpected scope for symbol \"{lhsName e}\""
-      if lhsNumSel e > 0 then do
+      (match sym.scope with
+       | .local_ => emit_ pos OpGetLocal [sym.index]
+       | .free => emit_ pos OpGetFree [sym.index]
+       | .global => emit_ pos OpGetGlobal [sym.index]
+       | _ => cerr pos s!"unexpected scope for symbol \"{lhsName e}\"")
+      (if lhsNumSel e > 0 then do
         compileSelChain e
         emit_ pos OpGetIndex [(lhsNumSel e : Nat)]
+       else pure ())
       compileExpr last
       emit_ pos OpSetIndex
   | lhs =>
@@ -929,19 +947,20 @@ def compileValueIdents (pos : Pos) (tok : Nat) : List (Pos × String) → List (
       compileValueIdent pos tok name (compileExpr v) (vsumOf v)
       compileValueIdents pos tok irest vrest (some (compileExpr v, vsumOf v))
     | none => do
-      match (if tok == tConst then last else none) with
-      | some (act, sum) => compileValueIdent pos tok name act sum
-      | none => compileValueIdent pos tok name (emit_ ipos OpNull) (.lit .undefined)
+      (match (if tok == tConst then last else none) with
+       | some (act, sum) => compileValueIdent pos tok name act sum
+       | none => compileValueIdent pos tok name (emit_ ipos OpNull) (.lit .undefined))
       compileValueIdents pos tok irest vrest last
 
 def compileValueSpecs (pos : Pos) (tok : Nat) : List (Option Nat × List (Pos × String) × List (Option Expr)) →
     Option (CM Unit × VSum) → CM Unit
   | [], _ => pure ()
   | (iota, idents, values) :: rest, last => do
-    if tok == tConst then
-      match iota with
-      | some v => modify fun s => { s with iotaVal := v }
-      | none => cerr pos "invalid iota value"
+    (if tok == tConst then
+      (match iota with
+       | some v => modify fun s => { s with iotaVal := v }
+       | none => cerr pos "invalid iota value")
+     else pure ())
     let last ← compileValueIdents pos tok idents values last
     compileValueSpecs pos tok rest last
 
@@ -953,9 +972,9 @@ def compileStmt : Stmt → CM Unit
     compileExpr e
     let i ← addConstant (.int 1#64)
     emit_ tokPos OpConstant [i]
-    match compoundOp (if tok == tDec then tSubAssign else tAddAssign) with
-    | some t => emit_ pos OpBinaryOp [t]
-    | none => pure ()
+    (match compoundOp (if tok == tDec then tSubAssign else tAddAssign) with
+     | some t => emit_ pos OpBinaryOp [t]
+     | none => pure ())
     compileDefineAssign pos e tVar (if tok == tDec then tSubAssign else tAddAssign) false
   | .assign pos tok lhs rhs =>
     compileAssign pos lhs rhs.length (compileExprs rhs)
@@ -969,7 +988,7 @@ def compileStmt : Stmt → CM Unit
   | .block _ body => blockOf body (compileStmts body)
   | .if_ pos init cond _ body else_ =>
     withBlock do
-      match init with | some i => compileStmt i | none => pure ()
+      (match init with | some i => compileStmt i | none => pure ())
       match cond with
       | .bool _ true => blockOf body (compileStmts body)
       | .bool _ false => do
@@ -999,16 +1018,16 @@ def compileStmt : Stmt → CM Unit
       compileStmts body
       match catch_ with
       | some (cpos, ident, _, cbody) => do
-        match ident with
-        | some name => do emit_ cpos OpNull; defineCatchIdent pos name
-        | none => pure ()
+        (match ident with
+         | some name => do emit_ cpos OpNull; defineCatchIdent pos name
+         | none => pure ())
         let opjump ← emit pos OpJump [0]
         let catchPos ← curPos
         -- compileCatchStmt
         emit_ cpos OpSetupCatch
-        match ident with
-        | some name => defineCatchIdent cpos name
-        | none => emit_ cpos OpPop
+        (match ident with
+         | some name => defineCatchIdent cpos name
+         | none => emit_ cpos OpPop)
         compileStmts cbody
         let finallyPos ← (match finally_ with
           | some (fpos, _, fbody) => do let p ← emit fpos OpSetupFinally; compileStmts fbody; pure p
@@ -1024,33 +1043,33 @@ def compileStmt : Stmt → CM Unit
     emit_ pos OpThrow [0]
     modify fun s => { s with tryCatchIndex := s.tryCatchIndex - 1 }
   | .throw pos e => do
-    match e with | some x => compileExpr x | none => pure ()
+    (match e with | some x => compileExpr x | none => pure ())
     emit_ pos OpThrow [1]
   | .branch pos tok => compileBranch pos tok
   | .return_ pos e =>
     match e with
     | none => do
-      if (← get).tryCatchIndex > -1 then emit_ pos OpFinalizer [0]
+      let s ← get
+      (if s.tryCatchIndex > -1 then emit_ pos OpFinalizer [0] else pure ())
       emit_ pos OpReturn [0]
     | some x => do
       compileExpr x
-      if (← get).tryCatchIndex > -1 then emit_ pos OpFinalizer [0]
+      let s ← get
+      (if s.tryCatchIndex > -1 then emit_ pos OpFinalizer [0] else pure ())
       emit_ pos OpReturn [1]
   | .for_ pos init cond post _ body =>
     withBlock do
-      match init with | some i => compileStmt i | none => pure ()
+      (match init with | some i => compileStmt i | none => pure ())
       let preCondPos ← curPos
       let postCondPos ← (match cond with
         | some c => do compileExpr c; let p ← emit pos OpJumpFalsy [0]; pure (some p)
         | none => pure none)
-      pushLoop
-      blockOf body (compileStmts body)
-      let loop ← popLoop
+      let loop ← withLoop (blockOf body (compileStmts body))
       let postBodyPos ← curPos
-      match post with | some p => compileStmt p | none => pure ()
+      (match post with | some p => compileStmt p | none => pure ())
       emit_ pos OpJump [preCondPos]
       let postStmtPos ← curPos
-      match postCondPos with | some j => changeOperand j [postStmtPos] | none => pure ()
+      (match postCondPos with | some j => changeOperand j [postStmtPos] | none => pure ())
       patchAll postStmtPos loop.breaks
       patchAll postBodyPos loop.continues
   | .forin pos key value iter _ body =>
@@ -1065,11 +1084,10 @@ def compileStmt : Stmt → CM Unit
         emit_ pos OpGetLocal [itSym.index]
         emit_ pos OpIterNext
         let postCondPos ← emit pos OpJumpFalsy [0]
-        pushLoop
-        forinVar pos itSym.index OpIterKey key
-        forinVar pos itSym.index OpIterValue value
-        blockOf body (compileStmts body)
-        let loop ← popLoop
+        let loop ← withLoop (do
+          forinVar pos itSym.index OpIterKey key
+          forinVar pos itSym.index OpIterValue value
+          blockOf body (compileStmts body))
         let postBodyPos ← curPos
         emit_ pos OpJump [preCondPos]
         let postStmtPos ← curPos
